@@ -13,12 +13,14 @@ SPEC = dict(
          "UTF-8; 0-4 bytes of spare capacity behind the line; fragments 72% sorted/non-overlapping/in-line, else random offsets "
          "-2..len+6 and lengths -1..5; sub-repository path a directory prefix / not a prefix / longer than the name; repeated "
          "checksums) through the real (*Server).formatResults with recover(); B: strings over specials, control bytes, invalid and "
-         "non-character UTF-8, U+2028/9 and the payload list through html/template in 6 contexts; C: shape-identical benign/hostile "
+         "non-character UTF-8, U+2028/9 and the payload list through html/template in 6 contexts; B2: URL-ish strings (schemes in mixed "
+         "case, with tab/space/NUL, U+017F long s / U+212A Kelvin folds, slash before the colon, payloads) through html/template at "
+         "the start of an href: was the value replaced by #ZgotmplZ; C: shape-identical benign/hostile "
          "corpus pairs (contents, file names, languages, repo/branch names, repo URLs, file/commit/line-fragment URL templates and the "
          "query are payloads) served by the real web.Server in-process: results, repo list, search box, print, rejected query; "
          "responses tokenised by x/net/html; D: shards built by ShardBuilder with a sub-repository path longer than the file name. "
          "non-trivial = A: >= 2 fragments or a panic; B: the escaper changed the string; C: every page / snippet with > 3 tags; "
-         "E: every response; a sniffed type other than text/plain / octet-stream.",
+         "B2: the string contains ':'; E: every response; a sniffed type other than text/plain / octet-stream.",
     trusted_base=["html/template's contextual analysis: which escaper is applied at which template position is read off the parse trees "
                   "after html/template rewrote them (translator), not modelled; that the escapers behave as Model/Web.v:esc on plain "
                   "strings is validated by the correspondence (part B) only",
@@ -27,6 +29,10 @@ SPEC = dict(
                   "parsing is represented by that tokenizer",
                   "translator harness/overlay/web/zz_verif_c36gen_test.go (go/types walk of the Execute data types, Funcmap result "
                   "types, URL-attribute heuristics) and the correspondence harness/oracle harness/overlay/web/zz_verif_c36_test.go",
+                  "URL filter: Model/WebUrl.v:is_safe_url = html/template's isSafeURL (incl. strings.EqualFold's U+017F fold) is validated by "
+                  "part B2 only; ua_scheme (URL Standard scheme parsing) is the user-agent assumption of C36_url_filter_harmless_partial; the "
+                  "normaliser/attribute escaper after the filter are not in that theorem; Model/WebJs.v:js_lit (ES2019 string literal "
+                  "scanner) is the assumption of C36_jsstr_literal_integrity",
                   "response classes: the user agent is the ASSUMPTION Model/WebResp.v:browser_markup (B1-B4: markup types are parsed as "
                   "markup, text/plain+nosniff and non-markup types never, text/plain without nosniff or no type is sniffed); that "
                   "Model/WebResp.v:detect equals http.DetectContentType (table generated from $GOROOT/src/net/http/sniff.go, matching "
